@@ -417,6 +417,50 @@ def h_connecting(ctx, nmsgs, script, how):
   ctx.witness('done')
 
 
+def h_loop_iteration(ctx, nq):
+  """the real RecocoIOLoop.run body, one worker that select() reports readable **and** writable in the same round while `nq` bytes are queued
+  for it: the receive step comes first - solver-chosen outcome {data, would-block, end of stream, fatal error} -; after a fatal receive error
+  (the worker is closed) nothing is written to that socket in the rest of the round or later, and it is reported closed once"""
+  import errno as _e
+  core = env.get_core()
+  iow = ctx.pox('pox.lib.ioworker')
+  class S(env.FakeSocket):
+    def __init__(self): env.FakeSocket.__init__(self, eof=False); self.after_dead = 0; self.dead = False; self.outcome = None
+    def recv(self, n, flags=0):
+      if self.outcome == 0: return b'\x01\x02\x03'
+      if self.outcome == 1: raise BlockingIOError(_e.EAGAIN, 'would block')
+      if self.outcome == 2: self.dead = True; return b''
+      self.dead = True; raise OSError(_e.ECONNRESET, 'reset')
+    def send(self, data, flags=0):
+      if self.dead or self.closed: self.after_dead += 1
+      return env.FakeSocket.send(self, data, flags)
+  loop = iow.RecocoIOLoop()
+  loop.pinger = env.DummyPinger()
+  sock = S(); w = iow.RecocoIOWorker(sock); w.pinger = loop.pinger
+  closes = []
+  w.close_handler = lambda worker: closes.append(worker)
+  loop.register_worker(w)                     # (sets the worker's on_close; taken up by the loop's first round)
+  payload = ctx.bytes('queued', nq)
+  w.send(payload)
+  g = loop.run()
+  next(g)
+  sock.outcome = int(ctx.int('recv_outcome', 0, 3))
+  try:
+    g.send(([w], [w], []))
+    if w in loop._workers and not sock.closed and w._ready_to_send: g.send(([], [w], []))
+  except StopIteration:
+    ctx.check('the I/O loop keeps running', False)
+  if sock.outcome >= 2:
+    ctx.witness('receive-side loss')
+    ctx.check('nothing is written to the socket after the fatal receive outcome', sock.after_dead == 0)
+    ctx.check('the worker is closed and reported closed once', w.closed and len(closes) == 1)
+  else:
+    ctx.witness('alive')
+    got = sock.sent[0] if len(sock.sent) == 1 else None
+    ctx.check('the queued bytes were written once, unchanged', got is not None and ctx.Eq(env.tobytes(ctx, list(got)), payload))
+  g.close()
+
+
 def obligations(tier):
   thorough = tier != 'quick'
   cplans = ['ssf', 'sfs', 'sffs', 'ssfsf'] + (['sssff', 'sfsfsf', 'ssffs'] if thorough else [])
@@ -436,6 +480,8 @@ def obligations(tier):
                desc='IOWorker.shutdown() with more than one I/O-buffer of data queued: everything is written before the socket is shut down, once'),
     Obligation('O3_threads', h_threads, tcases, witnesses=('done', 'bound-reached'), max_decisions=20000, mode='int', path_seconds=120,
                desc='Connection.send (cooperative thread) against the real DeferredSender.run loop (its own thread), interleaved at statement granularity: stream preserved'),
+    Obligation('O7_loop_iteration', h_loop_iteration, [dict(nq=6)], witnesses=('receive-side loss', 'alive'),
+               desc='one round of the real I/O loop with a worker both readable and writable: no write after a fatal receive outcome'),
     Obligation('O4_two_connections', h_two, [dict(plan=p, ncalls=3) for p in (['abfb', 'abfab', 'bafa', 'abxfb', 'abxb'] + (['abffba', 'aabfb'] if thorough else []))], witnesses=('clean',),
                max_decisions=20000, desc='two connections behind the one DeferredSender, symbolic writable subsets per flush round: each connection keeps its own stream order'),
     Obligation('O1_controller', h_controller, [dict(nmsgs=p.count('s'), ncalls=nc, plan=p) for p in cplans], witnesses=('fatal', 'clean'),
